@@ -4,3 +4,4 @@ import Proofs.Pairing
 import Proofs.PairingOrder
 import Proofs.Cigar
 import Proofs.Vector
+import Proofs.Indel
